@@ -7,3 +7,11 @@ import GoImap.Props.C15
 #print axioms GoImap.C15.search_first
 #print axioms GoImap.C15.nums_spec
 #print axioms GoImap.C15.nums_dynamic
+#print axioms GoImap.C15.insert_canonical
+#print axioms GoImap.C15.addNum_canonical
+#print axioms GoImap.C15.addRange_canonical
+#print axioms GoImap.C15.addSet_canonical
+#print axioms GoImap.C15.canonical_run
+#print axioms GoImap.C15.insert_mem
+#print axioms GoImap.C15.mem_union
+#print axioms GoImap.C15.dynamic_iff
